@@ -5,6 +5,7 @@ the code by the `write` / `read` correspondence streams.
 -/
 import IclModel.Rules
 import IclModel.Encoding
+import IclModel.Scanner
 namespace Icl
 
 /-- record kinds the reader dispatches on -/
@@ -506,6 +507,25 @@ def readFile (m : Model) (e : Enc) (input : Bytes) : File Vals × Option RErr :=
   | some x => (s.file, some x)
   | none =>
     if !clean then
+      (s.file, some { wrapped := true, line := s.lineNum, record := s.recordName, cls := .file, field := "LineNumber" })
+    else if s.headerUntouched then
+      (s.file, some { wrapped := true, line := s.lineNum, record := "FileHeader", cls := .file, field := "" })
+    else if (s.control.s "recordType").isEmpty then
+      (s.file, some { wrapped := true, line := s.lineNum, record := "FileControl", cls := .file, field := "" })
+    else if s.cur.header.isSome then
+      (s.file, some { wrapped := true, line := s.lineNum, record := "CashLetterControl", cls := .file, field := "" })
+    else (s.file, none)
+
+/-- `Reader.Read` over a stream delivered by the chunk schedule `sched` with scanner buffer `max`:
+the scanner model feeds the same record loop -/
+def readFileScan (m : Model) (e : Enc) (splitLP : SplitFn) (max : Nat) (sched : List Nat) (input : Bytes) :
+    File Vals × Option RErr :=
+  let (lines, serr) := scan (if e.lp then splitLP else scanLinesSplit) max sched [] input
+  let (s, er) := readLines m e lines (initState m)
+  match er with
+  | some x => (s.file, some x)
+  | none =>
+    if serr.isSome then
       (s.file, some { wrapped := true, line := s.lineNum, record := s.recordName, cls := .file, field := "LineNumber" })
     else if s.headerUntouched then
       (s.file, some { wrapped := true, line := s.lineNum, record := "FileHeader", cls := .file, field := "" })
